@@ -60,6 +60,10 @@ def run(module_dir, module, cfg=None, workers=8, timeout=3600, simulate=None, de
         jopts = ["-XX:+UseSerialGC", "-XX:TieredStopAtLevel=1", "-Xss16m", "-Xmx2g", "-DTLA-Library=" + SPEC]
     else:
         jopts = ["-XX:+UseParallelGC", "-XX:ParallelGCThreads=4", "-Xss16m", "-Xmx6g", "-DTLA-Library=" + SPEC]
+    # (TLC and SANY create scratch directories in java.io.tmpdir: keep them inside the job's own directory, which is removed with it)
+    jtmp = os.path.join(module_dir, "jtmp")
+    os.makedirs(jtmp, exist_ok=True)
+    jopts.append("-Djava.io.tmpdir=" + jtmp)
     if dfs:
         jopts.append("-Dtlc2.tool.queue.IStateQueue=StateDeque")
     cmd = ["java"] + jopts + ["-cp", JAR + ":" + DEPS, "tlc2.TLC", "-workers", str(workers),
